@@ -161,7 +161,7 @@ def main():
                         status = "timeout" if rc == 124 else "died"
                         died.append({"case": case, "status": status, "rc": rc, "log": log})
                     hangs_so_far = sum(1 for d in died if d["status"] in ("timeout",)) + count_hangs(work, nshards)
-                    if not replay and restarts < 200 and hangs_so_far < 4:
+                    if not replay and restarts < 200 and hangs_so_far < 16:
                         restarts += 1
                         env = dict(base_env, VERIF_OUT=out, VERIF_SHARD="%d/%d" % (sh, nshards), VERIF_START=str(case["idx"] + 1))
                         with open(os.path.join(work, "shard%d.log" % sh), "ab") as lf:
